@@ -1,49 +1,11 @@
 """findings_C06.py — trigger predicates of the open C06 findings (findings/C06.entries.json).
 
-A failing case is attributed to a finding only if the predicate holds for the *case* (the operation sequence)
-and replacing the triggering feature makes the failure disappear; any other failure stays a violation."""
-
-
-def _equal_object_removals(case):
-    """positions of the remove(x) operations that took out a member other than x (an equal object), each with
-    the member that left, provided that member is renumbered later in the sequence"""
-    import props.C06 as C06
-    w = C06.World(case)
-    hits = []
-    for i, op in enumerate(case["ops"]):
-        before = w.members()
-        r = w.apply(op)
-        if op[0] == "remove" and r == "ok":
-            gone = [m for m in before if m not in w.members()]
-            if len(gone) == 1 and gone[0] != op[1]:
-                e = gone[0]
-                if any(o[0] == "setnum" and o[1] == e for o in case["ops"][i + 1:]):
-                    hits.append((i, e))
-    return hits
+There is no open C06 finding.  F-C06-remove-equal-object (remove(x) with x equal to, but not identical with, a member
+left the member's stale number-cache entries behind) was repaired by /repo commit bd4067d (findings/C06.fixed.json,
+regression case corpus/C06/fixed-9.json).  Nothing is attributed to it any more: if a look-up answers an object that
+was taken out by remove() again, that is a violation."""
 
 
 def C06_remove_equal_object(fcase, params):
-    """F-C06-remove-equal-object: remove(x) with x == member but x is not the member (Surface, Material), the
-    member having been renumbered while it was a member, and the removed member renumbered afterwards.
-    Confirmed by giving every such remove() the member itself: the failure has to disappear."""
-    import props.C06 as C06
-    if fcase.get("kind") != "oracle":
-        return False
-    c = fcase.get("case")
-    if not c or c.get("kind") not in C06.VALUE_EQ_KINDS:
-        return False
-    c = C06.norm_case(c)
-    try:
-        hits = _equal_object_removals(c)
-    except Exception:
-        return False
-    if not hits:
-        return False
-    ops = list(c["ops"])
-    for i, e in hits:
-        ops[i] = ("remove", e)
-    fixed = dict(c, ops=ops)
-    try:
-        return C06.check_case(fixed) is None
-    except Exception:
-        return False
+    """F-C06-remove-equal-object is fixed: never attributes."""
+    return False
